@@ -131,7 +131,7 @@ class Check:
         if got == want:
             self.ok(rid, key, detail or str(sorted(map(str, got))))
             return True
-        if not got or any('TOP' in repr(g) for g in got):
+        if not got or any('TOP' in repr(g) or 'Sym(' in repr(g) for g in got):
             self.undecided(rid, key, 'outcome not determined by the abstract interpretation (%s); %s' % (sorted(map(repr, got))[:6], msg), where)
             return None
         self.fail(rid, key, msg, where)
